@@ -13,6 +13,7 @@ import struct
 from sim import codec as C
 from sim.actors import Actor, TAG_BASE
 from sim.world import World, ManagerCrashed
+from sim.net import SimStall
 from .base import RunResult
 
 ALL = C.ALL_MESSAGE_TYPES
@@ -61,6 +62,15 @@ class ClientPubRun:
         res.config = dict(harness="clientpub", timecode=timecode, host_id=host, module_id=rid)
         w.patch()
         try:
+            if ch.flag("cfg.other_layout_first", 1, 3):
+                # before anything else the process has worked with the other header layout (a client of another system)
+                from pyrtma.header import get_header_cls
+                other = get_header_cls(not timecode)()
+                _ = other.size
+                _ = bytes(other)
+                oc = pyrtma.Client(module_id=12, timecode=not timecode)
+                w.register_client_logger(oc)
+                res.probes["other_header_layout_used_first"] += 1
             w.start_manager()
             mon = Actor(w, "mon")
             mon.open()
@@ -75,8 +85,18 @@ class ClientPubRun:
             c = pyrtma.Client(module_id=rid, host_id=host, timecode=timecode)
             self.client = c
             w.register_client_logger(c)
-            c.connect(f"127.0.0.1:{w.PORT}")
+            try:
+                c.connect(f"127.0.0.1:{w.PORT}")
+            except ClientError as e:
+                res.add(self.prop, "client_cannot_connect",
+                        f"Client.connect to a manager that acknowledged the request failed with {type(e).__name__}",
+                        sig="client_cannot_connect")
+                return res
             w.quiesce()
+            # what the manager sent to the client so far reads as the acknowledgement the client saw
+            if c.module_id <= 0:
+                res.add(self.prop, "client_cannot_connect", f"after connect() the client's module id is {c.module_id}")
+                return res
             my_id = c.module_id
             conn = c._sock.peer.idx
             hs = w.net.hs
@@ -175,6 +195,36 @@ class ClientPubRun:
                         f"subscriber id 30 received {len(got_s)} of the client's messages, {len(exp_s)} were broadcast or "
                         f"addressed to it", sig="client_publish_routing")
             res.probes["client_api_publishes"] += len(self.sent)
+            # the other direction: the client as a subscriber reads what somebody else publishes, unchanged
+            from pyrtma.exceptions import RTMAMessageError
+            c.subscribe([USER_T])
+            w.quiesce()
+            for j in range(1 + ch.pick("n.reads", 3)):
+                d = cls()
+                d.n = 900 + j
+                d.arr[:] = [j * 7 + k for k in range(10)]
+                sub.send_raw(sub.frame(USER_T, bytes(d), dest_mod=ch.choose("rd.dm", [0, my_id])))
+                w.quiesce()
+                try:
+                    m = c.read_message(timeout=0.5)
+                except (ClientError, RTMAMessageError) as e:
+                    res.add(self.prop, "client_receive",
+                            f"a message of a subscribed type published by module 30 made read_message raise {type(e).__name__}",
+                            sig="client_receive")
+                    break
+                except SimStall:
+                    # the whole message has been delivered, the manager is idle, nothing is in flight -- and the
+                    # client still waits for more bytes
+                    res.add(self.prop, "client_receive",
+                            "a message of a subscribed type published by module 30 was delivered completely, but "
+                            "read_message(timeout=0.5) waits for ever for more bytes", sig="client_receive")
+                    break
+                if m is None or m.header.msg_type != USER_T or bytes(m.data) != bytes(d) or m.header.src_mod_id != 30:
+                    got = None if m is None else (m.header.msg_type, m.header.src_mod_id, bytes(m.data)[:8])
+                    res.add(self.prop, "client_receive",
+                            f"module 30 published VERIF_PUB n={900 + j}; the subscribed client read {got}", sig="client_receive")
+                    break
+                res.probes["client_api_reads"] += 1
         except ManagerCrashed as e:
             res.crash = e.signature()
             res.crash_detail = str(e)
